@@ -182,7 +182,6 @@ func init() {
 		Assumptions: commonAssumptions})
 }
 
-
 // expectedPeerForwarding: the quic session helpers hand the caller's expected-peer argument, unchanged, down to
 // p2ptls.Identity.ConfigForPeer — the only place where the remote identity is pinned (shared by C26 and C03).
 func expectedPeerForwarding(c *an.Check) {
